@@ -165,6 +165,7 @@ func (a *archetype) getTableSlowPath(storage *storage, relations []relationID) (
 	if uint8(len(relations)) < a.numRelations {
 		panic("relation targets must be fully specified")
 	}
+	checkRelationsDistinct(relations)
 	index := a.componentsMap[relations[0].component.id]
 	tables, ok := a.relationTables[index][relations[0].target.id]
 	if !ok {
